@@ -158,7 +158,7 @@ pub open spec fn buf_frame_common(a: Buffer, b: Buffer) -> bool {
     &&& a.buffer_type == b.buffer_type && a.ice_mode == b.ice_mode && a.palette_mode == b.palette_mode && a.font_mode == b.font_mode
     &&& a.is_terminal_buffer == b.is_terminal_buffer
     &&& a.overlay_layer_index == b.overlay_layer_index && a.overlay_layer == b.overlay_layer
-    &&& a.is_font_table_dirty == b.is_font_table_dirty && a.palette == b.palette
+    &&& a.is_font_table_dirty == b.is_font_table_dirty && a.palette == b.palette && a.font_table == b.font_table
 }
 pub open spec fn buf_frame_ts(a: Buffer, b: Buffer) -> bool {      // only terminal_state changes
     buf_frame_common(a, b) && a.size == b.size && a.layers == b.layers && a.sauce_data == b.sauce_data
